@@ -76,8 +76,9 @@ ASSUMPTIONS = [
 UNPROVED = (
     "'every yielded link is accepted by is_url' is proved only under the hypothesis that "
     "canonicalize_url preserves is_url (links_are_urls_partial); with canonicalize=True the "
-    "clause is explored by the oracle on the implementation (known findings KF-C17-1 astral IDN, "
-    "KF-C17-2 one-digit port). What html.unescape, urljoin, is_url, canonicalize_url compute is "
+    "clause is explored by the oracle on the implementation (the two inputs on which it used to "
+    "fail - astral IDN, one-digit port - were repaired in /repo, 13903ce and 7e90a9e, and stay in "
+    "the corpus). What html.unescape, urljoin, is_url, canonicalize_url compute is "
     "outside the model (parameters)."
 )
 
@@ -402,7 +403,7 @@ def corpus():
     # D40 (fixed by 2dadf2f): str regexes were Unicode-aware, bytes ones not
     for r in RAW[:8]:
         yield mk([raw(r)], b0, "D40")
-    # D41: canonicalized astral IDN is no longer accepted by is_url (known finding KF-C17-1)
+    # D41: canonicalized astral IDN was not accepted by is_url (repaired: 13903ce; one-digit port: 7e90a9e)
     yield mk([anchor("http://xn--ki8h.ws/x")], b0, "D41")
     yield mk([anchor("http://a.com:08/")], b0, "one-digit port after canonicalization")
     # exception path of the generator (urljoin / canonicalize_url raise ValueError)
